@@ -433,6 +433,13 @@ fn is_meta_for_zone_class(t: u16) -> bool {
 /// §3.2.5 prerequisite section processing. `dont_care` (only with Quirk::PrereqViaLookup) returns
 /// Err(None) when the verdict depends on an RR the quirk makes unpredictable.
 pub fn prerequisites(zone: &Zone, prereqs: &[URr], quirks: &Quirks) -> Result<Result<(), u8>, ()> {
+    prerequisites_g(zone, &BTreeSet::new(), prereqs, quirks)
+}
+
+/// `ghosts`: empty RRset objects an earlier message left in the implementation's map
+/// (Quirk::GhostRrset). They hold no RR, so per RFC 2136 they are no RRset; through the lookup path
+/// (Quirk::PrereqViaLookup) some of them answer for other RRsets, see `ghost_affected`.
+pub fn prerequisites_g(zone: &Zone, ghosts: &BTreeSet<(Labels, u16)>, prereqs: &[URr], quirks: &Quirks) -> Result<Result<(), u8>, ()> {
     let mut temp: BTreeMap<(Labels, u16), BTreeSet<Vec<u8>>> = BTreeMap::new();
     let via_lookup = quirks.contains(&Quirk::PrereqViaLookup);
     let mut unpredictable = false;
@@ -443,7 +450,7 @@ pub fn prerequisites(zone: &Zone, prereqs: &[URr], quirks: &Quirks) -> Result<Re
         if !zone.in_zone(&rr.name) {
             return Ok(Err(RC_NOTZONE));
         }
-        let affected = via_lookup && lookup_affected(zone, &rr.name, rr.rtype);
+        let affected = via_lookup && (lookup_affected(zone, &rr.name, rr.rtype) || ghost_affected(zone, ghosts, &rr.name, rr.rtype));
         if rr.class == C_ANY {
             if !rr.rdata.is_empty() {
                 return Ok(Err(RC_FORMERR));
@@ -539,6 +546,32 @@ fn lookup_affected(zone: &Zone, name: &[Vec<u8>], rtype: u16) -> bool {
     false
 }
 
+/// the lookup path meets an empty RRset object where it matters for another RRset: an empty CNAME
+/// set at the name is found before (and instead of) types that sort after CNAME, an empty NS set
+/// at or above the name (below the apex) reads as a delegation, and ANY walks over every object
+/// at the name. An empty set of the very type asked for is simply an empty answer ("no such
+/// RRset", as RFC 2136 has it) and is *not* an excuse.
+fn ghost_affected(zone: &Zone, ghosts: &BTreeSet<(Labels, u16)>, name: &[Vec<u8>], rtype: u16) -> bool {
+    if ghosts.is_empty() {
+        return false;
+    }
+    let n = canon::lower(name);
+    if rtype == T_ANY && ghosts.iter().any(|g| g.0 == n) {
+        return true;
+    }
+    if rtype != T_CNAME && ghosts.contains(&(n.clone(), T_CNAME)) {
+        return true;
+    }
+    let mut cur = n.clone();
+    while cur.len() > zone.origin.len() {
+        if ghosts.contains(&(cur.clone(), T_NS)) && !(cur == n && rtype == T_NS) {
+            return true;
+        }
+        cur.remove(0);
+    }
+    false
+}
+
 /// §3.4.1.3 update section prescan
 pub fn prescan(zone: &Zone, updates: &[URr]) -> Result<(), u8> {
     for rr in updates {
@@ -574,11 +607,11 @@ struct ApplyState {
 }
 
 /// §3.4.2.7 update section processing; returns every outcome the RFC (or the quirked rules) allow
-fn apply(zone: &Zone, updates: &[URr], quirks: &Quirks) -> Vec<ApplyState> {
+fn apply(zone: &Zone, ghosts0: &BTreeSet<(Labels, u16)>, updates: &[URr], quirks: &Quirks) -> Vec<ApplyState> {
     let mut states = vec![ApplyState {
         zone: zone.clone(),
         changed: false,
-        ghosts: BTreeSet::new(),
+        ghosts: if quirks.contains(&Quirk::GhostRrset) { ghosts0.clone() } else { BTreeSet::new() },
         emptied: BTreeSet::new(),
         branches: vec![],
     }];
@@ -777,6 +810,12 @@ fn apply_one(mut st: ApplyState, rr: &URr, quirks: &Quirks, out: &mut Vec<ApplyS
 
 /// Run one UPDATE message against `zone`: every acceptable outcome.
 pub fn step(zone: &Zone, msg: &UMsg, quirks: &Quirks) -> StepResult {
+    step_g(zone, &BTreeSet::new(), msg, quirks)
+}
+
+/// `step` for an implementation that still holds the empty RRset objects `ghosts` from earlier
+/// messages; they matter only under the quirks that give them an effect
+pub fn step_g(zone: &Zone, ghosts: &BTreeSet<(Labels, u16)>, msg: &UMsg, quirks: &Quirks) -> StepResult {
     let rejected = |rcode: u8| Outcome {
         accept: false,
         rcode,
@@ -786,7 +825,7 @@ pub fn step(zone: &Zone, msg: &UMsg, quirks: &Quirks) -> StepResult {
         branches: vec![],
     };
     let mut prereq_unpredictable = false;
-    match prerequisites(zone, &msg.prereqs, quirks) {
+    match prerequisites_g(zone, ghosts, &msg.prereqs, quirks) {
         Ok(Ok(())) => {}
         Ok(Err(rc)) => {
             return StepResult {
@@ -816,7 +855,7 @@ pub fn step(zone: &Zone, msg: &UMsg, quirks: &Quirks) -> StepResult {
         o.branches.push("empty-rdata-add-refused");
         outcomes.push(o);
     }
-    for st in apply(zone, &msg.updates, quirks) {
+    for st in apply(zone, ghosts, &msg.updates, quirks) {
         let mut branches = st.branches;
         if empty_add {
             branches.push("empty-rdata-add-literal");
